@@ -17,8 +17,10 @@ EXPLANATION = (
     "+ (number of samples left of the slice)/N, and those samples are at least the same margin to the left; scalar and "
     "array inputs agree; the result is invariant under reordering the sample; shifting and rescaling sample, bandwidth and "
     "evaluation point rescales the density by 1/c and leaves the cdf unchanged. NOT claimed: the numerical size of the "
-    "truncation bound, monotonicity / limits of the cdf, the rule-of-thumb and cross-validated bandwidth selectors, samples "
-    "larger than 4."
+    "truncation bound, monotonicity / limits of the cdf, the quality of the selected bandwidths (the rule-of-thumb selector is "
+    "only shown to be the documented formula and shift/scale covariant; the cross-validated search only up to the end of its "
+    "first candidate grid, whose widths must rescale with the data - the rest of that search, an iterative refinement, is "
+    "outside reach), samples larger than 4."
     ' Tree look-up unit: BinaryTree.region_groups on an unordered array of symbolic points (repeats, points outside the limits) must put every point in the group of the region a scalar look-up gives, so array evaluation equals point-by-point evaluation.'
 )
 BOUNDS = {"quick": "fully symbolic 3 sample points with range/h in [1/2, 4); dropping regime on 2 fixed spacing patterns with symbolic shift/scale/evaluation point; (<= 2 tree layers; 1 layer for the invariance / covariance units), 1 evaluation point", "thorough": "(the fully symbolic unit with range/h in [4, 8), with two evaluation points, and the array-level unit were undecided / incomplete within the hour and were dropped: array evaluation is covered by the tree-level grouping unit); more fixed shapes (ties, 5 points) for the regime where samples are dropped from the slice; tree look-up with 2 layers"}
